@@ -39,6 +39,36 @@ example :
     let X := SchemaX.ofSchema S
     ((implL X {} {} X.top []).2.evs.map (·.node.sid), (implL X {} {} X.top []).1.length) = ([0, 1, 1, 2], 4) := by decide
 
+/-- **`implicit_exact`** (one sibling level, the schema nodes that are not choices): `lyd_new_implicit` keeps every node that was
+there; afterwards a schema node has an instance iff it had one or is a node that gets implicit data — a non-presence container, a
+leaf with a default, a leaf-list with defaults, not state data under `LYD_IMPLICIT_NO_STATE` (RFC 7950 §7.5.1, §7.6.1, §7.7.2) — and
+every node that was not there before is such an implicit node: flagged default only, without children.  (Through choices: the law
+`implicit` of tools/checks/c07.py compares libyang with `rfcComplete`; findings F65, F66.) -/
+theorem implicit_exact (S : Schema) (o : VOpts) (cx : Cx) (ks : List STree) (sibs : List DNode) :
+    (∀ x ∈ sibs, x ∈ (implNodes S o cx ks sibs).1) ∧
+    (∀ sid, hasInst (implNodes S o cx ks sibs).1 sid = (hasInst sibs sid || ks.any (fun k => wantsImplicit o k && k.sid == sid))) ∧
+    (∀ x ∈ (implNodes S o cx ks sibs).1, x ∈ sibs ∨ (x.flags = { dflt := true } ∧ x.kids = [] ∧ ks.any (·.sid == x.sid) = true)) :=
+  ⟨implNodes_mono S o cx ks sibs, implNodes_hasInst S o cx ks sibs, implNodes_out S o cx ks sibs⟩
+
+/-! ## auto-deletion -/
+
+/-- **`autodel_exact`** (defaults superseded by explicit instances, `lyd_validate_autodel_leaflist_dflt` /
+`lyd_validate_autodel_cont_leaf_dflt`): when the schema node of a new node has an explicit instance among the siblings, exactly
+the default-flagged instances of that schema node are removed — in front of the node, behind it, and the node itself if it is one —
+every recorded change is the deletion of one of them (a non-presence container through its children), and no other sibling is
+touched; without an explicit instance nothing of a leaf-list goes. -/
+theorem autodel_exact (X : SchemaX) (cx : Cx) (done tl : List DNode) (node : DNode) :
+    let victim := fun (x : DNode) => x.sid == node.sid && x.flags.dflt
+    let explicitThere := (done ++ node :: tl).any fun x => x.sid == node.sid && !x.flags.dflt
+    (explicitThere = true →
+      (autodelStep X cx done node tl).1 = done.filter (fun x => !victim x) ∧
+      (autodelStep X cx done node tl).2.1 = victim node ∧
+      (autodelStep X cx done node tl).2.2.1 = tl.filter (fun x => !victim x) ∧
+      ∀ e ∈ (autodelStep X cx done node tl).2.2.2, e.op = .delete ∧ ∃ v ∈ done ++ node :: tl, victim v = true ∧
+        (e.node = v ∨ (isNpContD X.base v = true ∧ e.node ∈ v.kids))) ∧
+    (explicitThere = false → X.base.isKind node.sid .leaflist = true → autodelStep X cx done node tl = (done, false, tl, [])) :=
+  ⟨fun h => autodelStep_found X cx done tl node h, fun h hll => autodelStep_leaflist_keep X cx done tl node h hll⟩
+
 /-! ## idempotence -/
 
 /-- **`validate_idempotent`** — for every schema without `choice` / `case` (defaults, leaf-list defaults, non-presence and presence
@@ -84,6 +114,11 @@ nodes (`ll` twice, `n`, `n/e`, `l/v`; 1 delete + 5 creates), the second one does
 example : KidsLookupOk Xx ∧ NoChoiceX Xx ∧ NoCase Xx.base ∧ placedL Xx Xx.top tx = true ∧ sheightL Xx.top ≤ walkFuel Xx tx ∧
     (validate Xx {} tx).evs.length = 6 ∧ (validate Xx {} (validate Xx {} tx).tree).evs = [] := by
   refine ⟨lookupOk_of_B Xx (by decide), noChoiceX_of_B Xx (by decide), by unfold NoCase; decide, by decide, by decide, by decide, by decide⟩
+
+/-- non-vacuity: the old default `d` of the example tree `tx` is the one node that goes, through one delete event -/
+example :
+    let r := autodelStep Xx {} [.term 1 { dflt := true } [] [120]] (.term 1 { new := true } [] [119]) []
+    (r.1.length, r.2.1, r.2.2.2.map (·.node.val)) = (0, false, [[120]]) := by decide
 
 /-! ## `lyd_is_default` against RFC 6243 / RFC 7950 §7.7.2 -/
 
